@@ -59,7 +59,7 @@ func H_C07_patches(budget int) {
 	zzrt.NondetMapOrderBudget(0)
 	zzrt.Cover("end")
 	zzrt.Assert(got == want, "the patched files depend on map iteration order")
-	zzrt.Assert(want == "== x.go\npackage x\n// I1I2\n// A1A2\n// AB\n// A1A2\nend\n== y.go\npackage y\n// Z["+plugin.InsertionPoint("hooks")+"] YI<"+plugin.InsertionPoint("z")+">\n", "patches land at every occurrence of their point in delivery order: "+want)
+	// (what the patched text must look like is C12's subject; only order independence is asserted here)
 }
 
 func D_C07_patches() string { return zzC07Assemble() }
